@@ -694,6 +694,25 @@ class Frame(PyModel):
             return Series([all(bool(c) for c in r) for r in self.rows], None, self.index.copy())
         return Series([all(bool(r[i]) for r in self.rows) for i in range(len(self._cols.labels))], None, Index([(l,) for l in self._cols.labels], [None]))
 
+    def map(self, func, na_action=None, **k):
+        """DataFrame.map (applymap): the function applied to every cell"""
+        _only(k, (), 'DataFrame.map')
+        if na_action is not None:
+            raise AnalysisAbort("DataFrame.map(na_action=...)")
+        def one(c):
+            r = CALL(func, c)
+            return NaN if r is None else r          # None in a numeric result becomes NaN (object columns keep None; positions are numbers here)
+        return Frame(self._cols.labels, [[one(c) for c in r] for r in self.rows], self.index.copy(), self._cols.name)
+
+    applymap = map
+
+    def fillna(self, value, **k):
+        """DataFrame.fillna(value): every missing cell of EVERY column (label columns included) is replaced"""
+        _only(k, (), 'DataFrame.fillna')
+        if isinstance(value, (dict, Series, Frame)):
+            raise AnalysisAbort("DataFrame.fillna with a mapping")
+        return Frame(self._cols.labels, [[value if (is_nan(c) or c is None) else c for c in r] for r in self.rows], self.index.copy(), self._cols.name)
+
     def __getitem__(self, key):
         if isinstance(key, Series) and all(isinstance(c, bool) for c in key.cells):
             if len(key.cells) != len(self.rows):
@@ -708,6 +727,15 @@ class Frame(PyModel):
         return Series([r[i] for r in self.rows], key, self.index)
 
     def __setitem__(self, key, val):
+        if isinstance(key, (list, Columns, ObjVec)) and isinstance(val, Frame):
+            labs = list(key.labels) if isinstance(key, Columns) else list(key.cells) if isinstance(key, ObjVec) else list(key)
+            if len(labs) != len(val._cols.labels):
+                raise PyRaise("ValueError", None, "Columns must be same length as key")
+            if list(val.index.tuples) != list(self.index.tuples):
+                raise AnalysisAbort("frame assigned to several columns with another index")
+            for j, lab in enumerate(labs):
+                self.__setitem__(lab, [r[j] for r in val.rows])
+            return
         if isinstance(val, Series):
             cells = list(val.cells)
             vi = val.index.tuples if val.index is not None else None
